@@ -111,6 +111,43 @@ theorem cholesky_none_of_not_posdef (A : Matrix ℝ)
   | none => rfl
   | some L => exact absurd (cholesky_posDef_of_some A L h hsym) hnot
 
+/-- **Cholesky on every symmetric positive definite input** (the property's first sentence, all
+    sizes): for a square real `A` whose matrix is positive definite (Mathlib's `Matrix.PosDef`,
+    which includes symmetry) the model is present, and its factor is lower triangular with
+    positive diagonal and reproduces the input as `L·Lᵀ`.  The proof shows that every pivot is
+    positive: the leading block is `T·diag(1,…,1,pivot)·Tᵀ` for an invertible triangular `T`. -/
+theorem cholesky_spd (A : Matrix ℝ) (hsq : A.rows = A.columns)
+    (hPD : (toMat A.rows A.rows A).PosDef) :
+    ∃ L, cholesky A = some L ∧ Shaped A.rows A.rows L ∧
+      (∀ i j : Fin A.rows, i < j → toMat A.rows A.rows L i j = 0) ∧
+      (∀ i : Fin A.rows, 0 < toMat A.rows A.rows L i i) ∧
+      toMat A.rows A.rows L * (toMat A.rows A.rows L).transpose = toMat A.rows A.rows A := by
+  obtain ⟨L, hL⟩ := cholesky_present_aux hsq hPD
+  obtain ⟨_, h2, h3, h4, _, h6⟩ := cholesky_sound A L hL
+  have hsym : (toMat A.rows A.rows A).transpose = toMat A.rows A.rows A := by
+    have := hPD.1
+    rwa [Matrix.IsHermitian, Matrix.conjTranspose_eq_transpose_of_trivial] at this
+  exact ⟨L, hL, h2, h3, h4, h6 hsym⟩
+
+/-- Presence ⇔ positive definiteness, for symmetric square real inputs. -/
+theorem cholesky_some_iff_posDef (A : Matrix ℝ) (hsq : A.rows = A.columns)
+    (hsym : (toMat A.rows A.rows A).transpose = toMat A.rows A.rows A) :
+    (∃ L, cholesky A = some L) ↔ (toMat A.rows A.rows A).PosDef :=
+  ⟨fun ⟨L, h⟩ => cholesky_posDef_of_some A L h hsym,
+   fun h => (cholesky_present_aux hsq h)⟩
+
+/-- Non-vacuity of the positive-definiteness hypothesis: `[[4,2],[2,5]]` is positive definite. -/
+example : (toMat 2 2 (⟨[4, 2, 2, 5], 2, 2⟩ : Matrix ℝ)).PosDef := by
+  have h : toMat 2 2 (⟨[4, 2, 2, 5], 2, 2⟩ : Matrix ℝ)
+      = (!![2, 0; 1, 2] : _root_.Matrix (Fin 2) (Fin 2) ℝ) * (!![2, 0; 1, 2]).transpose := by
+    ext i j
+    fin_cases i <;> fin_cases j <;>
+      simp [toMat, Decomp.get, EasyMl.Matrix.getIndex, Matrix.mul_apply, Fin.sum_univ_two] <;> norm_num
+  rw [h]
+  apply posDef_of_lower
+  · intro i j hij; fin_cases i <;> fin_cases j <;> simp_all
+  · intro i; fin_cases i <;> simp
+
 /-- Non-vacuity of `cholesky_complete`: `[[4,2],[2,5]] = M·Mᵀ` for `M = [[2,0],[1,2]]`. -/
 example : ∃ M : _root_.Matrix (Fin 2) (Fin 2) ℝ, (∀ i j, i < j → M i j = 0) ∧ (∀ i, 0 < M i i) ∧
     toMat 2 2 (⟨[4, 2, 2, 5], 2, 2⟩ : Matrix ℝ) = M * M.transpose := by
@@ -258,6 +295,24 @@ example : ldlt (⟨[2, 4, 4, 3], 2, 2⟩ : Matrix ℚ) = some (⟨[1, 0, 2, 1], 
   decide +kernel
 
 example : ∀ a b : ℚ, NumOrd.eq a b = true ↔ a = b := fun a b => by simp [NumOrd.eq]
+
+/-- **LDLᵀ on every symmetric positive definite input** (all sizes): the model is present, `L` is
+    unit lower triangular, `D` is diagonal and `L·D·Lᵀ = A`. -/
+theorem ldlt_spd (A : Matrix ℝ) (hsq : A.rows = A.columns)
+    (hPD : (toMat A.rows A.rows A).PosDef) :
+    ∃ L D, ldlt A = some (L, D) ∧ Shaped A.rows A.rows L ∧ Shaped A.rows A.rows D ∧
+      (∀ i j : Fin A.rows, i < j → toMat A.rows A.rows L i j = 0) ∧
+      (∀ i : Fin A.rows, toMat A.rows A.rows L i i = 1) ∧
+      (∀ i j : Fin A.rows, i ≠ j → toMat A.rows A.rows D i j = 0) ∧
+      toMat A.rows A.rows L * toMat A.rows A.rows D * (toMat A.rows A.rows L).transpose
+        = toMat A.rows A.rows A := by
+  obtain ⟨L, D, h⟩ := ldlt_present_aux hsq hPD
+  obtain ⟨_, h2, h3, h4, h5, h6, _, _, h9⟩ :=
+    ldlt_sound (fun a b => RealModel.eq_eq a b) A L D h
+  have hsym : (toMat A.rows A.rows A).transpose = toMat A.rows A.rows A := by
+    have := hPD.1
+    rwa [Matrix.IsHermitian, Matrix.conjTranspose_eq_transpose_of_trivial] at this
+  exact ⟨L, D, h, h2, h3, h4, h5, h6, h9 hsym⟩
 
 /-- **Absence of LDLᵀ ⇔ non-square input or a zero pivot.**  The model is absent exactly when
     the input is not square or when, with the columns before `j` computed, the `j`-th pivot
